@@ -29,7 +29,7 @@ var ctPool = [][]string{
 
 var hdrPool = [][2]string{
 	{"X-Custom", "v1"}, {"Cache-Control", "no-store"}, {"Location", "/elsewhere"}, {"Vary", "Origin"}, {"Content-Language", "en"},
-	{"X-Request-Id", "abc-123"}, {"Etag", "\"v7\""}, {"X-Custom", "v2"}, {"Set-Cookie", "a=b"}, {"Content-Encoding", "x-own"},
+	{"X-Request-Id", "abc-123"}, {"X-Content-Type-Options", "nosniff"}, {"X-Content-Type-Options", "nosniff"}, {"Etag", "\"v7\""}, {"X-Custom", "v2"}, {"Set-Cookie", "a=b"}, {"Content-Encoding", "x-own"},
 }
 
 var codePool = []int{200, 200, 200, 201, 202, 204, 206, 301, 302, 304, 400, 404, 418, 500, 503, 299, 599, 999, 203, 307, 103, 100, 102}
@@ -150,7 +150,7 @@ func genCase(r *hx.Rand, tier string) *caseT {
 	k.Opt.NoGzip = r.Chance(1, 10)
 	k.Opt.NoBr = r.Chance(1, 5)
 	if r.Chance(1, 3) {
-		k.Opt.GzipLevel = ip(hx.Pick(r, []int{-1, 1, 6, 9, 0, -2, 42}))
+		k.Opt.GzipLevel = ip(hx.Pick(r, []int{-1, 1, 6, 9, 0, -2, 42, -3, 10}))
 	}
 	if r.Chance(1, 3) {
 		k.Opt.BrLevel = ip(hx.Pick(r, []int{0, 1, 4, 5, 6, 9, 11, 15, -3}))
@@ -171,7 +171,7 @@ func genCase(r *hx.Rand, tier string) *caseT {
 			"gzip;Q=0", "br;Q=0, gzip;q=0.5", "br;Q=0, gzip;Q=0", "gzip; Q=0.000, br", "GZip;Q=0", "BR;q=0, GZIP;Q=0.5", "gzip;q=0, br;q=0"}))
 	}
 	if !simple && r.Chance(1, 9) {
-		k.Pre = [][2]string{hx.Pick(r, [][2]string{{"Content-Encoding", "x-pre"}, {"X-Outer", "1"}, {"Vary", "Origin"}, {"Content-Type", "text/x-outer"}, {"Content-Encoding", ""}, {"Cache-Control", "private"}})}
+		k.Pre = [][2]string{hx.Pick(r, [][2]string{{"Content-Encoding", "x-pre"}, {"X-Outer", "1"}, {"Vary", "Origin"}, {"Content-Type", "text/x-outer"}, {"Content-Encoding", ""}, {"Cache-Control", "private"}, {"Etag", "\"pre\""}, {"X-Content-Type-Options", "nosniff"}, {"X-Content-Type-Options", "nosniff"}, {"Vary", "Accept-Encoding"}, {"Content-Encoding", "identity"}, {"Vary", "*"}})}
 		if r.Chance(1, 3) {
 			k.Pre = append(k.Pre, [2]string{"X-Outer-2", "two"})
 		}
@@ -292,6 +292,19 @@ func genCase(r *hx.Rand, tier string) *caseT {
 		}
 		for i := r.Range(0, 3); i > 0; i-- {
 			late()
+		}
+		return k
+	}
+	if !simple && r.Chance(1, 25) {
+		// an informational status after the final one, behind a first-call-wins status recorder
+		k.Wrap = "outer-recorder"
+		if r.Chance(1, 2) {
+			k.Prog = append(k.Prog, opT{K: "H", Key: "Content-Type", Vals: []string{"text/plain"}})
+		}
+		k.Prog = append(k.Prog, opT{K: "W", Code: hx.Pick(r, []int{404, 201, 500, 200})})
+		k.Prog = append(k.Prog, opT{K: hx.Pick(r, []string{"W", "St"}), Code: hx.Pick(r, []int{103, 100, 102})})
+		for i := r.Range(0, 3); i > 0; i-- {
+			k.Prog = append(k.Prog, opT{K: "B", Data: chunk()})
 		}
 		return k
 	}
@@ -561,6 +574,9 @@ func fixedCases() []*caseT {
 		// another middleware's writer without Flush in front of the compression middleware: the handler's Flush does nothing
 		{Path: "/p", AE: gz, Wrap: "outer-noflush", Prog: []opT{ct, {K: "F"}, {K: "W", Code: 404}, {K: "B", Data: []byte("not found")}}},
 		{Path: "/p", AE: gz, Wrap: "inner-noflush", Prog: []opT{ct, {K: "F"}, {K: "W", Code: 404}, {K: "B", Data: []byte("not found")}}},
+		// an interim status after the final one, behind a first-call-wins recorder; nosniff without a Content-Type
+		{Path: "/p", AE: gz, Wrap: "outer-recorder", Opt: optT{MinSize: 64}, Prog: []opT{ct, {K: "W", Code: 404}, {K: "W", Code: 103}, {K: "B", Data: []byte("not found")}}},
+		{Path: "/p", AE: gz, Prog: []opT{{K: "H", Key: "X-Content-Type-Options", Vals: []string{"nosniff"}}, {K: "B", Data: []byte("<html><body>x</body></html>")}}},
 		// HEAD, Range and conditional requests
 		{Path: "/p", AE: gz, Head: true, Prog: []opT{ct, {K: "W", Code: 200}, {K: "B", Data: []byte("head body")}}},
 		{Path: "/p", AE: gz, Head: true, Prog: []opT{{K: "B", Data: []byte("<html>sniff me")}}},
